@@ -104,15 +104,19 @@ func joinName(a, b string) string {
 var encCfg = zapcore.EncoderConfig{MessageKey: "msg", LevelKey: "level", NameKey: "logger", EncodeLevel: zapcore.CapitalLevelEncoder,
 	EncodeTime: zapcore.EpochNanosTimeEncoder, EncodeDuration: zapcore.NanosDurationEncoder}
 
+var bareCfg = zapcore.EncoderConfig{EncodeTime: zapcore.EpochNanosTimeEncoder, EncodeDuration: zapcore.NanosDurationEncoder}
+
 var cfgRepr = ref.Repr{Time: ref.TEpochNanos, Dur: ref.DNanos, Ordered: true}
 
 func runProgram(r *ev.Run, id string, i int) {
 	g := gen.New(rng.For(r.Seed, "c07", i), gen.Opts{Hostile: i%4 == 0, UniqueKeys: i%2 == 0, MaxDepth: 2, MaxFields: 4, NoFaults: true, NoReflect: false})
 	rr := g.R
-	sinkJ, sinkC := &rec.Sink{}, &rec.Sink{}
+	sinkJ, sinkC, sinkB := &rec.Sink{}, &rec.Sink{}, &rec.Sink{}
 	obsCore, logs := observer.New(zapcore.DebugLevel)
 	var core zapcore.Core = zapcore.NewTee(
 		zapcore.NewCore(zapcore.NewJSONEncoder(encCfg), sinkJ, zapcore.DebugLevel),
+		// an encoder without any entry key: its line is the node's context and call-site fields alone
+		zapcore.NewCore(zapcore.NewJSONEncoder(bareCfg), sinkB, zapcore.DebugLevel),
 		zapcore.NewCore(zapcore.NewConsoleEncoder(encCfg), sinkC, zapcore.DebugLevel),
 		obsCore,
 	)
@@ -249,6 +253,7 @@ func runProgram(r *ev.Run, id string, i int) {
 		p.force(n)
 		sinkJ.Reset()
 		sinkC.Reset()
+		sinkB.Reset()
 		logs.TakeAll()
 		p.trace = append(p.trace, fmt.Sprintf("v%d: n%d.log(%q, %v)", p.version, n.id, msg, gen.Descs(callSite)))
 		pn := ev.Guard(func() {
@@ -294,6 +299,21 @@ func runProgram(r *ev.Run, id string, i int) {
 		exp.Members = append(exp.Members, body.Members...)
 		if err := ref.Compare(exp, v, cfgRepr, "$"); err != nil {
 			fail("json-context", "n%d (%s): JSON entry differs from the node's own derivation path: %v; line=%s", n.id, n.how, err, clip(js[0]))
+			return
+		}
+		// fields-only JSON
+		bs := sinkB.Writes()
+		if len(bs) != 1 {
+			fail("json-lines", "n%d: the key-less JSON sink got %d writes for one entry", n.id, len(bs))
+			return
+		}
+		bv, berr, _ := jsonv.CheckLine(bs[0], "\n")
+		if berr != nil {
+			fail("json-invalid", "n%d (%s): invalid JSON line from the encoder without entry keys: %v; line=%s", n.id, n.how, berr, clip(bs[0]))
+			return
+		}
+		if err := ref.Compare(body, bv, cfgRepr, "$bare"); err != nil {
+			fail("json-context", "n%d (%s): key-less JSON entry differs from the node's own derivation path: %v; line=%s", n.id, n.how, err, clip(bs[0]))
 			return
 		}
 		// console: known prefix, then the context object
@@ -515,6 +535,86 @@ func concurrentFirstUse(r *ev.Run) {
 	}
 }
 
+// concurrentSiblings: several goroutines derive children from one parent at the same moment; the
+// parent's context holds a reflected value and every child adds a reflected value of its own. Each
+// child's entries must carry the parent's value and the child's own, nobody else's.
+func concurrentSiblings(r *ev.Run) {
+	type settings struct {
+		Name string
+		Tags []string
+	}
+	n := r.N(300, 6000)
+	for i := 0; i < n; i++ {
+		id := fmt.Sprintf("c07/concurrent-siblings/%d", i)
+		if !r.Want(id) {
+			continue
+		}
+		g := rng.For(r.Seed, "c07/sib", i)
+		sink := &lockedBuf{}
+		enc := zapcore.NewJSONEncoder(zapcore.EncoderConfig{MessageKey: "msg"})
+		if g.Bool() {
+			enc = zapcore.NewConsoleEncoder(zapcore.EncoderConfig{MessageKey: "msg"})
+		}
+		parent := zap.New(zapcore.NewCore(enc, sink, zapcore.DebugLevel)).With(zap.Reflect("base", settings{"parent", []string{"p", "q"}}))
+		if g.Bool() {
+			parent.Info("the parent was used before")
+		}
+		ng := g.Range(2, 8)
+		start := make(chan struct{})
+		var wg sync.WaitGroup
+		for gi := 0; gi < ng; gi++ {
+			wg.Add(1)
+			go func(gi int) {
+				defer wg.Done()
+				<-start
+				for k := 0; k < 4; k++ {
+					child := parent.With(zap.Reflect("mine", settings{fmt.Sprintf("g%d-%d", gi, k), []string{strings.Repeat("x", 10+gi)}}))
+					child.Info("sibling", zap.Int("g", gi), zap.Int("k", k), zap.Reflect("site", []int{gi, k}))
+				}
+			}(gi)
+		}
+		close(start)
+		wg.Wait()
+		r.Eval(1)
+		r.Count("concurrent_sibling_cases", 1)
+		r.Distinct(fmt.Sprintf("sib|%d|%d", i, ng))
+		lines := 0
+		for _, ln := range strings.Split(strings.TrimSpace(string(sink.buf)), "\n") {
+			if strings.Contains(ln, "the parent was used before") {
+				continue
+			}
+			if k := strings.IndexByte(ln, '{'); k >= 0 {
+				ln = ln[k:]
+			}
+			var d struct {
+				Base, Mine *settings
+				G, K       *int
+				Site       []int
+			}
+			bad := ""
+			if err := json.Unmarshal([]byte(ln), &d); err != nil {
+				bad = "is not valid JSON: " + err.Error()
+			} else if d.G == nil || d.K == nil || d.Base == nil || d.Mine == nil {
+				bad = "lacks a member"
+			} else if d.Base.Name != "parent" || len(d.Base.Tags) != 2 {
+				bad = "carries a changed parent value"
+			} else if d.Mine.Name != fmt.Sprintf("g%d-%d", *d.G, *d.K) || len(d.Mine.Tags) != 1 || len(d.Mine.Tags[0]) != 10+*d.G {
+				bad = "carries another child's value"
+			} else if len(d.Site) != 2 || d.Site[0] != *d.G || d.Site[1] != *d.K {
+				bad = "carries another entry's call-site value"
+			}
+			if bad != "" {
+				r.Violate(ev.Violation{Case: id, Class: "sibling-context-mixed", Msg: fmt.Sprintf("%d goroutines derived children (each adding a reflected value) from one parent whose context holds a reflected value: an entry %s: %q", ng, bad, clip([]byte(ln)))})
+				break
+			}
+			lines++
+		}
+		if lines != 4*ng && r.Violations() == 0 {
+			r.Violate(ev.Violation{Case: id, Class: "sibling-context-mixed", Msg: fmt.Sprintf("%d goroutines x 4 entries were logged, %d intact lines arrived", ng, lines)})
+		}
+	}
+}
+
 // Run is the C07 monitor.
 func Run(r *ev.Run) {
 	r.Rule = "case i = f(seed,i): a derivation program (random tree of With/WithLazy/Named/WithOptions(Fields)/Sugar/Desugar and sugared With/WithLazy with 1-20 generated fields incl. namespaces and version-probe marshalers) over tee(JSON,console,observer) under random transparent wrappers; nodes log in random order interleaved with further derivations and every node logs again at the end; each entry's JSON line, console context and observer context are compared with the model of the node's own path (name, ordered fields, evaluation moment of every With/WithLazy segment); plus concurrent first use: 2-8 goroutines make the first use of one WithLazy logger at the same moment (direct, through a With child, through Check) with an injected delay inside the one-time initialisation, and every entry must carry the single evaluation of the lazy fields; distinct = distinct programs; non-trivial = every program (>= 3 nodes)"
@@ -528,6 +628,7 @@ func Run(r *ev.Run) {
 		runProgram(r, id, i)
 	}
 	concurrentFirstUse(r)
+	concurrentSiblings(r)
 	optionOrder(r)
 }
 
